@@ -199,7 +199,62 @@ func (g *sigGen) shape(recv, name string) (string, bool) {
 	if fd == nil || fd.Body == nil {
 		return "", false
 	}
+	restore := alphaRename(fd, fd.Body)
+	defer restore()
 	return stripLineComments(g.p.src(fd.Body)), true
+}
+
+// alphaRename renames, in place, every variable declared inside fd (parameters, results, locals, closure
+// parameters - not the receiver, not package-level names, not fields or labels) to v1, v2, ... in order of first
+// occurrence under root, so that a shape does not depend on the names of locals.  The returned function undoes it.
+func alphaRename(fd *ast.FuncDecl, root ast.Node) func() {
+	names := map[*ast.Object]string{}
+	type savedName struct {
+		id  *ast.Ident
+		old string
+	}
+	var saved []savedName
+	isRecv := func(o *ast.Object) bool {
+		if fd.Recv == nil {
+			return false
+		}
+		for _, f := range fd.Recv.List {
+			for _, n := range f.Names {
+				if n.Obj == o {
+					return true
+				}
+			}
+		}
+		return false
+	}
+	lo, hi := fd.Pos(), fd.End()
+	// first collect (Object.Pos looks the declaring identifier up by name, so nothing may be renamed yet)
+	var ids []*ast.Ident
+	ast.Inspect(root, func(n ast.Node) bool {
+		id, ok := n.(*ast.Ident)
+		if !ok || id.Obj == nil || id.Obj.Kind != ast.Var || id.Name == "_" {
+			return true
+		}
+		if pos := id.Obj.Pos(); pos < lo || pos >= hi || isRecv(id.Obj) {
+			return true
+		}
+		ids = append(ids, id)
+		return true
+	})
+	for _, id := range ids {
+		nm, seen := names[id.Obj]
+		if !seen {
+			nm = fmt.Sprintf("v%d", len(names)+1)
+			names[id.Obj] = nm
+		}
+		saved = append(saved, savedName{id, id.Name})
+		id.Name = nm
+	}
+	return func() {
+		for _, s := range saved {
+			s.id.Name = s.old
+		}
+	}
 }
 
 // stripLineComments removes // comments (the printer keeps those attached to statements) and collapses white space.
@@ -228,6 +283,8 @@ func (g *sigGen) eventLoopCase(typ string) (string, bool) {
 		}
 		for _, e := range cc.List {
 			if g.p.text(e) == typ {
+				restore := alphaRename(fd, cc)
+				defer restore()
 				var parts []string
 				for _, s := range cc.Body {
 					parts = append(parts, stripLineComments(g.p.src(s)))
